@@ -2,6 +2,7 @@ package props
 
 import (
 	"fmt"
+	"go/token"
 	"strings"
 
 	"golang.org/x/tools/go/ssa"
@@ -486,7 +487,23 @@ func runC15(c *eng.Ctx) {
 		less := c.Fn("kv/table.priorityQueue.Less")
 		for _, r := range eng.SuccessReturns(less) {
 			d := p.Desc(eng.RetVal(r, 0))
-			c.Check(strings.Contains(d, ".key<") && strings.HasSuffix(d, ".key)"), "ordered-by-key", r, less, "the queue is ordered by ascending key", "Less is "+d)
+			// Less(i, j) = key[i] < key[j], in either spelling (a < b  or  b > a)
+			asc := false
+			if bo, ok := eng.Unwrap(eng.RetVal(r, 0)).(*ssa.BinOp); ok {
+				x, y := bo.X, bo.Y
+				if bo.Op == token.GTR {
+					x, y = y, x
+				}
+				if bo.Op == token.LSS || bo.Op == token.GTR {
+					isKeyOf := func(v ssa.Value, idx *ssa.Parameter) bool {
+						return eng.DependsOnField(v, "kv/table.item.key") && eng.DependsOn(v, func(z ssa.Value) bool { return z == ssa.Value(idx) })
+					}
+					if len(less.Params) == 3 {
+						asc = isKeyOf(x, less.Params[1]) && isKeyOf(y, less.Params[2]) && !isKeyOf(x, less.Params[2]) && !isKeyOf(y, less.Params[1])
+					}
+				}
+			}
+			c.Check(asc || strings.Contains(d, ".key<") && strings.HasSuffix(d, ".key)"), "ordered-by-key", r, less, "the queue is ordered by ascending key", "Less is "+d)
 		}
 	})
 }
